@@ -64,3 +64,31 @@ Theorem C04_source_get_follows_model : forall i,
   src_obs Failover.Legacy i = Some (model_obs Failover.Legacy i) /\ src_obs Failover.Generic i = Some (model_obs Failover.Generic i).
 Proof. intros i; split; [exact (tie_get_legacy i)|exact (tie_get_generic i)]. Qed.
 Print Assumptions C04_source_get_follows_model.
+
+(* ---- where a completed build lands (model, every schedule) ---- *)
+From Cache Require Import FailoverRun FailoverObs FailoverLands.
+
+(* "a later Get ... observes the result of the last completed build", also when the caller reuses the key slice: in
+   every reachable state, the first write of a thread after its builder returned v for key k is backend.Write(k, v) —
+   under the key the build was started for and with the value the builder returned.  The same executable predicate
+   is part of C04_obs, evaluated on the implementation's traces. *)
+Theorem C04_completed_build_lands : forall fe nilb c ls s,
+  frun fe nilb c f0 ls = Some s -> c04_lands (flog s) = true.
+Proof. exact build_lands. Qed.
+Print Assumptions C04_completed_build_lands.
+
+(* and at quiescence nothing a builder returned is still unwritten *)
+Theorem C04_quiescent_all_written : forall fe nilb c ls s,
+  frun fe nilb c f0 ls = Some s -> all_done s -> lands ∅ (flog s) = Some ∅.
+Proof. exact build_lands_quiescent. Qed.
+Print Assumptions C04_quiescent_all_written.
+
+Example C04_lands_nonvacuous :
+  let c := mkFcfg Generic true true false 0 (20 * sec) minute false false false in
+  let o := mkOrc 1000 RMiss None (inl 7) [] 2000 in
+  match frun_x c f0 ([LSpawn 1%N [1%N] false None] ++ repeat (LStep 1%N o) 11) with
+  | Some s => omap wproj (flog s) = [WEnd 1%N [1%N] 7; WWrite 1%N [1%N] 7] /\
+              c04_lands (flog s ++ [FBuildEnd 2%N [2%N] (inl 5); FWrite 2%N [9%N] 5 0 false None]) = false
+  | None => False
+  end.
+Proof. vm_compute. split; reflexivity. Qed.
